@@ -38,7 +38,8 @@ VERSIONS = [("MAJOR.MINOR.PATCH", "1.2.3", ["--patch"], ["api v{k}.MAJOR", "docs
             ("{pycalver}", "v202010.1001-beta", [], []),
             ("{semver}", "1.2.3", ["--patch"], [])]
 GENERIC = ['ver{k}="{version}"', "(v{k} {version})", "v{k}: {version};", "rel{k} = '{pep440_version}'", "<x{k}>{version}</x>",
-           "?{k}={pep440_version}&", "{k}% {version} %", 'v{k} = "{version}"  # managed by bumpver', "{k}: {version} ; note"]
+           "?{k}={pep440_version}&", "{k}% {version} %", 'v{k} = "{version}"  # managed by bumpver', "{k}: {version} ; note",
+           '"q{k} {version}"', "'s{k} {version}'"]  # (quoted at both ends: the quotes are literal text of the pattern)
 TRUE_WORDS = ["yes", "true", "1", "on", "True", "YES", "On", "TRUE"]
 FALSE_WORDS = ["no", "false", "0", "off", "False", "nope", "", "2"]
 MESSAGES = ["bump {old_version} -> {new_version}", "release: {new_version}", "chore(release) v{new_version_pep440} [skip ci]",
